@@ -35,6 +35,10 @@ pub trait Property: Sync {
     /// extra stages after the parallel part (child processes, Miri)
     fn post(&self, _cfg: &Cfg, _acc: &mut Acc) {}
     fn meta(&self, cfg: &Cfg, acc: &Acc) -> Meta;
+    /// run the cases in child processes (abort containment)
+    fn sharded(&self) -> bool {
+        false
+    }
     fn hard_limit(&self, cfg: &Cfg) -> Duration {
         cfg.tier.pick(Duration::from_secs(600), Duration::from_secs(4 * 3600))
     }
@@ -157,8 +161,15 @@ fn run_property(prop: &dyn Property, cfg: &Cfg) -> i32 {
     }
 
     let n = prop.cases(cfg);
-    let res = util::pool::run_cases(n, cfg.threads, prop.hard_limit(cfg), |i, acc| prop.run_case(cfg, i, acc));
-    let mut acc = res.acc;
+    if let Some(spec) = util::shard::shard_spec(cfg) {
+        // child of a sharded run
+        return util::shard::run_child(cfg, &spec, n, &|i, acc| prop.run_case(cfg, i, acc));
+    }
+    let mut acc = if prop.sharded() {
+        util::shard::run_parent(cfg, cfg.threads as u64, &[], prop.hard_limit(cfg), None)
+    } else {
+        util::pool::run_cases(n, cfg.threads, prop.hard_limit(cfg), |i, acc| prop.run_case(cfg, i, acc)).acc
+    };
     prop.post(cfg, &mut acc);
     let meta = prop.meta(cfg, &acc);
     let wall = start.elapsed().as_secs_f64();
